@@ -66,10 +66,7 @@ func (fc *FnCtx) convertCode(st *State, v Val, to types.Type, call *ast.CallExpr
 		n := app("str.len", v.T)
 		sl := Val{T: fc.define("slice", "Slice", fc.makeSliceUninit(st, s.Elem(), n, n)), Ty: to}
 		a := app("select", fc.heapGet(st, "E$uint8", fmt.Sprintf("(Array Int (Array %s (_ BitVec 8)))", fc.I())), app("s-arr", sl.T))
-		if !fc.bv {
-			fc.fail(call.Pos(), "[]byte(string) in int mode")
-		}
-		fc.assume(st, fmt.Sprintf("(forall ((i %s)) (! (=> (and (bvsle (_ bv0 64) i) (bvslt i %s)) (= (select %s i) (str.at %s i))) :pattern ((select %s i))))", fc.I(), n, a, v.T, a))
+		fc.assume(st, fmt.Sprintf("(forall ((i %s)) (! (=> (and %s %s) (= (select %s i) (str.at %s i))) :pattern ((select %s i))))", fc.I(), fc.leIdx(fc.idxLit(0), "i"), fc.ltIdx("i", n), a, v.T, a))
 		return sl
 	}
 	if isString(to) {
@@ -77,9 +74,7 @@ func (fc *FnCtx) convertCode(st *State, v Val, to types.Type, call *ast.CallExpr
 			r := fc.fresh("str", fc.strSort())
 			fc.assume(st, app("=", app("str.len", r), app("s-len", v.T)))
 			a := app("select", fc.heapGet(st, "E$uint8", fmt.Sprintf("(Array Int (Array %s (_ BitVec 8)))", fc.I())), app("s-arr", v.T))
-			if fc.bv {
-				fc.assume(st, fmt.Sprintf("(forall ((i %s)) (! (=> (and (bvsle (_ bv0 64) i) (bvslt i (s-len %s))) (= (str.at %s i) (select %s (bvadd (s-off %s) i)))) :pattern ((str.at %s i))))", fc.I(), v.T, r, a, v.T, r))
-			}
+			fc.assume(st, fmt.Sprintf("(forall ((i %s)) (! (=> (and %s %s) (= (str.at %s i) (select %s %s))) :pattern ((str.at %s i))))", fc.I(), fc.leIdx(fc.idxLit(0), "i"), fc.ltIdx("i", app("s-len", v.T)), r, a, fc.addIdx(app("s-off", v.T), "i"), r))
 			return Val{T: r, Ty: to}
 		}
 	}
@@ -111,7 +106,7 @@ func (fc *FnCtx) evalBuiltin(st *State, name string, call *ast.CallExpr) []Val {
 		case *types.Map:
 			ck := "MC$" + fc.typeName(t.Key()) + "$" + fc.typeName(t.Elem())
 			c := app("select", fc.heapGet(st, ck, "(Array Int Int)"), v.T)
-			if fc.bv {
+			if fc.idxBV() {
 				fc.fail(call.Pos(), "len(map) in bv mode")
 			}
 			return []Val{{T: c, Ty: tInt}}
@@ -487,11 +482,19 @@ func (fc *FnCtx) methodRecv(st *State, sel *ast.SelectorExpr, s *types.Selection
 func (fc *FnCtx) callStatic(st *State, callee *types.Func, call *ast.CallExpr) []Val {
 	var recv *Val
 	fun := ast.Unparen(call.Fun)
+	var copyOut func()
 	if sel, ok := fun.(*ast.SelectorExpr); ok {
 		if s, ok := fc.info().Selections[sel]; ok && s.Kind() == types.MethodVal {
-			rv := fc.methodRecv(st, sel, s)
-			recv = &rv
+			if rv, co, ok := fc.elemPtrRecv(st, sel, s); ok {
+				recv, copyOut = &rv, co
+			} else {
+				rv := fc.methodRecv(st, sel, s)
+				recv = &rv
+			}
 		}
+	}
+	if copyOut != nil {
+		defer copyOut()
 	}
 	if ie, ok := fun.(*ast.IndexExpr); ok { // generic instantiation f[T](...)
 		_ = ie
@@ -622,10 +625,10 @@ func (fc *FnCtx) wellFormed(t string, ty types.Type) string {
 
 // noWrap: off + cap does not overflow the index type (real slices live in addressable memory).
 func (fc *FnCtx) noWrap(off, cp string) string {
-	if fc.bv {
+	if fc.idxBV() {
 		return app("bvsle", off, app("bvsub", bvLit(maxInt63(), 64), cp))
 	}
-	return "true"
+	return app("<=", app("+", off, cp), maxInt63().String())
 }
 
 func (fc *FnCtx) havocAllHeap(st *State) {
@@ -745,12 +748,28 @@ func (fc *FnCtx) applyContract(st *State, c *Contract, home *ContractSet, homePk
 	for k, v := range env.bound {
 		post.bound[k] = v
 	}
+	// `ensures result == E` (E not mentioning result) defines the result: bind it to E's term directly
+	defs := map[int]*SExpr{}
+	if sig.Results().Len() == 1 && !c.MayPanic {
+		for _, e := range c.Ensures {
+			if d := resultDefinition(e.E, sig.Results().At(0).Name()); d != nil {
+				defs[0] = d
+				break
+			}
+		}
+	}
 	for i := 0; i < sig.Results().Len(); i++ {
 		rv := sig.Results().At(i)
 		t := rv.Type()
-		r := fc.fresh("res", fc.sortOf(t))
-		fc.assume(st, fc.rangeFact(r, t))
-		fc.assume(st, fc.wellFormed(r, t))
+		var r string
+		if d, ok := defs[i]; ok {
+			dv := fc.assignConvSpec(post.eval(d), t)
+			r = fc.define("res", fc.sortOf(t), dv.T)
+		} else {
+			r = fc.fresh("res", fc.sortOf(t))
+			fc.assume(st, fc.rangeFact(r, t))
+			fc.assume(st, fc.wellFormed(r, t))
+		}
 		v := Val{T: r, Ty: t}
 		results = append(results, v)
 		if rv.Name() != "" && rv.Name() != "_" {
@@ -880,6 +899,13 @@ func (fc *FnCtx) regionsOf(m *Clause, env *SpecEnv) []region {
 					out = append(out, region{key: k, sort: srt})
 				}
 				return out
+			case "deref": // deref(p): the cell *p of a pointer to a non-struct type
+				pv := env.eval(e.Args[0])
+				pt, ok := pv.Ty.Underlying().(*types.Pointer)
+				if !ok {
+					fc.fail(token.NoPos, "modifies %s: not a pointer", m.Text)
+				}
+				return []region{{key: "P$" + fc.typeName(pt.Elem()), sort: fmt.Sprintf("(Array Int %s)", fc.sortOf(pt.Elem())), base: pv.T}}
 			case "everything":
 				return []region{{key: "*"}}
 			}
@@ -987,3 +1013,90 @@ func (fc *FnCtx) havocRegion(st *State, r region) {
 }
 
 // effect-free allow-list handled in engine.go
+
+// elemPtrRecv: s[i].M() where M has a pointer receiver: the element is copied into a fresh cell,
+// the method runs on the cell, and the cell is copied back (sound when the callee does not retain
+// the pointer; callees under contract only access *recv).
+func (fc *FnCtx) elemPtrRecv(st *State, sel *ast.SelectorExpr, s *types.Selection) (Val, func(), bool) {
+	m := s.Obj().(*types.Func)
+	rt := m.Type().(*types.Signature).Recv().Type()
+	pt, wantPtr := rt.Underlying().(*types.Pointer)
+	if !wantPtr || len(s.Index()) != 1 {
+		return Val{}, nil, false
+	}
+	ix, ok := ast.Unparen(sel.X).(*ast.IndexExpr)
+	if !ok {
+		return Val{}, nil, false
+	}
+	stt, ok := fc.typeOf(ix.X).Underlying().(*types.Slice)
+	if !ok {
+		return Val{}, nil, false
+	}
+	if _, isStruct := pt.Elem().Underlying().(*types.Struct); isStruct {
+		return Val{}, nil, false
+	}
+	base := fc.eval1(st, ix.X)
+	iv := fc.eval1(st, ix.Index)
+	i := fc.toIdx(iv)
+	fc.assert(st, fc.inBounds(i, app("s-len", base.T), iv), "bounds", "slice index in range (method call on element)", ix.Pos())
+	cell := fc.allocRef(st, "elemcell")
+	key := "P$" + fc.typeName(pt.Elem())
+	sort := fmt.Sprintf("(Array Int %s)", fc.sortOf(pt.Elem()))
+	fc.heapSet(st, key, sort, app("store", fc.heapGet(st, key, sort), cell, fc.sliceElem(st, base, i, stt.Elem())))
+	copyOut := func() {
+		v := app("select", fc.heapGet(st, key, sort), cell)
+		fc.checkFrameElem(st, base, i, ix.Pos())
+		fc.storeElem(st, base, i, Val{T: v, Ty: stt.Elem()}, stt.Elem())
+	}
+	return Val{T: cell, Ty: rt}, copyOut, true
+}
+
+// resultDefinition: if e is `result == E` (or a top-level conjunction containing it) with E free of
+// the result, returns E.
+func resultDefinition(e *SExpr, resName string) *SExpr {
+	if e.Kind == SBinary && e.Name == "&&" {
+		if d := resultDefinition(e.Args[0], resName); d != nil {
+			return d
+		}
+		return resultDefinition(e.Args[1], resName)
+	}
+	if e.Kind == SBinary && e.Name == "==" && e.Args[0].Kind == SIdent && (e.Args[0].Name == "result" || (resName != "" && e.Args[0].Name == resName)) {
+		if !mentions(e.Args[1], "result") && (resName == "" || !mentions(e.Args[1], resName)) && !mentionsOld(e.Args[1]) {
+			return e.Args[1]
+		}
+	}
+	return nil
+}
+
+func mentions(e *SExpr, name string) bool {
+	if e == nil {
+		return false
+	}
+	if e.Kind == SIdent && e.Name == name {
+		return true
+	}
+	if e.Fun != nil && mentions(e.Fun, name) {
+		return true
+	}
+	for _, a := range e.Args {
+		if mentions(a, name) {
+			return true
+		}
+	}
+	return false
+}
+
+func mentionsOld(e *SExpr) bool {
+	if e == nil {
+		return false
+	}
+	if e.Kind == SOld {
+		return true
+	}
+	for _, a := range e.Args {
+		if mentionsOld(a) {
+			return true
+		}
+	}
+	return false
+}
